@@ -1,9 +1,10 @@
-From Mds Require Import Common.ExtractBase Gen.SliceIdx Slice.SliceUtilModel Slice.SliceUtilSpec Slice.SliceUtilExtraModel Slice.SliceUtilModel64.
+From Mds Require Import Common.ExtractBase Gen.SliceIdx Slice.SliceUtilModel Slice.SliceUtilSpec Slice.SliceUtilExtraModel Slice.SliceUtilModel64 Slice.SliceUtilFastModel.
 Require Extraction.
 Require Import ExtrOcamlBasic.
 Extraction "sliceutil_model.ml" SliceUtilModel.partition SliceUtilModel.rotate SliceUtilModel.rotate_impl
   SliceUtilModel.chunks SliceUtilModel.batches SliceUtilModel.head SliceUtilModel.tail SliceUtilModel.stripe
   SliceUtilModel.at_ SliceUtilModel.ptr_at SliceUtilModel.can_overwrite SliceUtilModel.window
+  SliceUtilFastModel.rotate_fast SliceUtilFastModel.rotate_view_fast SliceUtilFastModel.partition_fast
   SliceUtilSpec.rotate_list SliceUtilSpec.batch_lens SliceUtilSpec.stripe_spec SliceUtilSpec.at_pos
   SliceUtilExtraModel.zero_view SliceUtilExtraModel.select_loop SliceUtilExtraModel.matching_loop
   SliceUtilExtraModel.map_keys SliceUtilExtraModel.take_consumer
